@@ -467,6 +467,13 @@ def main(argv=None) -> int:
     ok2 = merge(chk, par.pmap(judge_chunk, [(ch, True) for ch in par.chunks(l2, n)]), agg)
     levels.append(len(ok2))
     agg['level2_representatives'] = len(rep1)
+    # slot budget of the optimising pipeline: about 256 patterns worth saving beside the axioms
+    from . import c03
+    for (kind, nn), out in zip([('memo', k) for k in (250, 254, 255, 256, 300)], par.pmap(c03.capacity_chunk, [('memo', k) for k in (250, 254, 255, 256, 300)])):
+        agg['evals'] = agg.get('evals', 0) + 1
+        for sig, what in out['viol']:
+            sig = dict(sig, kind='optimise_' + sig['kind'])
+            chk.violation(sig, {'signature': sig}, what)
     pyrun.cleanup()
     chk.set('states', len(ok0) + len(ok1) + len(ok2))
     chk.set('transitions', agg.get('evals', 0))
